@@ -9,6 +9,7 @@ from __future__ import annotations
 
 import random
 
+import examples as ex
 import idcommon as ic
 from common import Outcome, seed, workdir
 
@@ -50,7 +51,12 @@ def inputs(wd, tier):
         deep = [q for q in it["qs"] if q[3] and q[5]]
         if deep:
             deep4.append(dict(it, qs=deep))
-    return items + r5items + p5items + deep4, [g3, g4, r5, p5]
+    # the repository's example catalogue (5-8 node graphs from the literature): its own example queries and a seeded
+    # sample of the identifiable queries with |X| + |Y| <= 3 (IDGenFile.tla)
+    exg = ex.id_items(wd, "id")
+    exi = [dict(it, qs=[q for q in it["qs"] if q[3]], own=[q for q in it["own"] if q[3]]) for it in exg["items"]]
+    exitems = ex.pick(exi, 6 if tier == "quick" else 40, qrng, "EX-")
+    return items + r5items + p5items + deep4 + exitems, [g3, g4, r5, p5, exg]
 
 
 def run(tier: str) -> int:
@@ -99,4 +105,4 @@ def run(tier: str) -> int:
     return out.finish("model_checking", cov, [
         "SCM family S: binary (one ternary in thorough) variables, one binary latent per bidirected edge (per clique in thorough), generic kernels in GF(32749)",
         "identity testing is one-sided: a wrong estimand escapes with probability <= deg/32749 per seed",
-        "graphs with more than 5 nodes are not explored"])
+        "beyond 5 nodes only the catalogue graphs (6-8 nodes, a sample of their queries) are explored"])
